@@ -34,18 +34,20 @@ static Form form_of(const std::string &s) {
     return F_BAD;
 }
 
+// the case-sensitive call is also made without the case argument (its documented default) and must agree
+#define DF(with_cs, dflt) (ci == 0 ? vh::same_as_default((with_cs), (dflt)) : (with_cs))
 static long do_find(const ST::string &h, int ci, Form f, const NeedleArgs &nd, size_t cnt, bool has, size_t start) {
     ST::case_sensitivity_t cs = CS[ci];
     const char *nullp = nullptr;
     switch (f) {
-    case F_CH:     return has ? h.find(start, nd.bytes[0], cs) : h.find(nd.bytes[0], cs);
-    case F_CSTR:   return has ? h.find(start, (const char *)nd.z, cs) : h.find((const char *)nd.z, cs);
-    case F_CSTR8:  return has ? h.find(start, (const char8_t *)nd.z, cs) : h.find((const char8_t *)nd.z, cs);
-    case F_SIZED:  return has ? h.find(start, (const char *)nd.n, nd.bytes.size(), cs) : h.find((const char *)nd.n, nd.bytes.size(), cs);
-    case F_SIZED8: return has ? h.find(start, (const char8_t *)nd.n, nd.bytes.size(), cs) : h.find((const char8_t *)nd.n, nd.bytes.size(), cs);
-    case F_STR:    return has ? h.find(start, nd.str, cs) : h.find(nd.str, cs);
-    case F_NULLC:  return has ? h.find(start, nullp, cs) : h.find(nullp, cs);
-    case F_NULLS:  return has ? h.find(start, nullp, cnt, cs) : h.find(nullp, cnt, cs);
+    case F_CH:     return has ? DF(h.find(start, nd.bytes[0], cs), h.find(start, nd.bytes[0])) : DF(h.find(nd.bytes[0], cs), h.find(nd.bytes[0]));
+    case F_CSTR:   return has ? DF(h.find(start, (const char *)nd.z, cs), h.find(start, (const char *)nd.z)) : DF(h.find((const char *)nd.z, cs), h.find((const char *)nd.z));
+    case F_CSTR8:  return has ? DF(h.find(start, (const char8_t *)nd.z, cs), h.find(start, (const char8_t *)nd.z)) : DF(h.find((const char8_t *)nd.z, cs), h.find((const char8_t *)nd.z));
+    case F_SIZED:  return has ? DF(h.find(start, (const char *)nd.n, nd.bytes.size(), cs), h.find(start, (const char *)nd.n, nd.bytes.size())) : DF(h.find((const char *)nd.n, nd.bytes.size(), cs), h.find((const char *)nd.n, nd.bytes.size()));
+    case F_SIZED8: return has ? DF(h.find(start, (const char8_t *)nd.n, nd.bytes.size(), cs), h.find(start, (const char8_t *)nd.n, nd.bytes.size())) : DF(h.find((const char8_t *)nd.n, nd.bytes.size(), cs), h.find((const char8_t *)nd.n, nd.bytes.size()));
+    case F_STR:    return has ? DF(h.find(start, nd.str, cs), h.find(start, nd.str)) : DF(h.find(nd.str, cs), h.find(nd.str));
+    case F_NULLC:  return has ? DF(h.find(start, nullp, cs), h.find(start, nullp)) : DF(h.find(nullp, cs), h.find(nullp));
+    case F_NULLS:  return has ? DF(h.find(start, nullp, cnt, cs), h.find(start, nullp, cnt)) : DF(h.find(nullp, cnt, cs), h.find(nullp, cnt));
     default:       return -99;
     }
 }
@@ -54,14 +56,14 @@ static long do_find_last(const ST::string &h, int ci, Form f, const NeedleArgs &
     ST::case_sensitivity_t cs = CS[ci];
     const char *nullp = nullptr;
     switch (f) {
-    case F_CH:     return has ? h.find_last(max, nd.bytes[0], cs) : h.find_last(nd.bytes[0], cs);
-    case F_CSTR:   return has ? h.find_last(max, (const char *)nd.z, cs) : h.find_last((const char *)nd.z, cs);
-    case F_CSTR8:  return has ? h.find_last(max, (const char8_t *)nd.z, cs) : h.find_last((const char8_t *)nd.z, cs);
-    case F_SIZED:  return has ? h.find_last(max, (const char *)nd.n, nd.bytes.size(), cs) : h.find_last((const char *)nd.n, nd.bytes.size(), cs);
-    case F_SIZED8: return has ? h.find_last(max, (const char8_t *)nd.n, nd.bytes.size(), cs) : h.find_last((const char8_t *)nd.n, nd.bytes.size(), cs);
-    case F_STR:    return has ? h.find_last(max, nd.str, cs) : h.find_last(nd.str, cs);
-    case F_NULLC:  return has ? h.find_last(max, nullp, cs) : h.find_last(nullp, cs);
-    case F_NULLS:  return has ? h.find_last(max, nullp, cnt, cs) : h.find_last(nullp, cnt, cs);
+    case F_CH:     return has ? DF(h.find_last(max, nd.bytes[0], cs), h.find_last(max, nd.bytes[0])) : DF(h.find_last(nd.bytes[0], cs), h.find_last(nd.bytes[0]));
+    case F_CSTR:   return has ? DF(h.find_last(max, (const char *)nd.z, cs), h.find_last(max, (const char *)nd.z)) : DF(h.find_last((const char *)nd.z, cs), h.find_last((const char *)nd.z));
+    case F_CSTR8:  return has ? DF(h.find_last(max, (const char8_t *)nd.z, cs), h.find_last(max, (const char8_t *)nd.z)) : DF(h.find_last((const char8_t *)nd.z, cs), h.find_last((const char8_t *)nd.z));
+    case F_SIZED:  return has ? DF(h.find_last(max, (const char *)nd.n, nd.bytes.size(), cs), h.find_last(max, (const char *)nd.n, nd.bytes.size())) : DF(h.find_last((const char *)nd.n, nd.bytes.size(), cs), h.find_last((const char *)nd.n, nd.bytes.size()));
+    case F_SIZED8: return has ? DF(h.find_last(max, (const char8_t *)nd.n, nd.bytes.size(), cs), h.find_last(max, (const char8_t *)nd.n, nd.bytes.size())) : DF(h.find_last((const char8_t *)nd.n, nd.bytes.size(), cs), h.find_last((const char8_t *)nd.n, nd.bytes.size()));
+    case F_STR:    return has ? DF(h.find_last(max, nd.str, cs), h.find_last(max, nd.str)) : DF(h.find_last(nd.str, cs), h.find_last(nd.str));
+    case F_NULLC:  return has ? DF(h.find_last(max, nullp, cs), h.find_last(max, nullp)) : DF(h.find_last(nullp, cs), h.find_last(nullp));
+    case F_NULLS:  return has ? DF(h.find_last(max, nullp, cnt, cs), h.find_last(max, nullp, cnt)) : DF(h.find_last(nullp, cnt, cs), h.find_last(nullp, cnt));
     default:       return -99;
     }
 }
@@ -70,14 +72,14 @@ static int do_contains(const ST::string &h, int ci, Form f, const NeedleArgs &nd
     ST::case_sensitivity_t cs = CS[ci];
     const char *nullp = nullptr;
     switch (f) {
-    case F_CH:     return h.contains(nd.bytes[0], cs);
-    case F_CSTR:   return h.contains((const char *)nd.z, cs);
-    case F_CSTR8:  return h.contains((const char8_t *)nd.z, cs);
-    case F_SIZED:  return h.contains((const char *)nd.n, nd.bytes.size(), cs);
-    case F_SIZED8: return h.contains((const char8_t *)nd.n, nd.bytes.size(), cs);
-    case F_STR:    return h.contains(nd.str, cs);
-    case F_NULLC:  return h.contains(nullp, cs);
-    case F_NULLS:  return h.contains(nullp, cnt, cs);
+    case F_CH:     return DF(h.contains(nd.bytes[0], cs), h.contains(nd.bytes[0]));
+    case F_CSTR:   return DF(h.contains((const char *)nd.z, cs), h.contains((const char *)nd.z));
+    case F_CSTR8:  return DF(h.contains((const char8_t *)nd.z, cs), h.contains((const char8_t *)nd.z));
+    case F_SIZED:  return DF(h.contains((const char *)nd.n, nd.bytes.size(), cs), h.contains((const char *)nd.n, nd.bytes.size()));
+    case F_SIZED8: return DF(h.contains((const char8_t *)nd.n, nd.bytes.size(), cs), h.contains((const char8_t *)nd.n, nd.bytes.size()));
+    case F_STR:    return DF(h.contains(nd.str, cs), h.contains(nd.str));
+    case F_NULLC:  return DF(h.contains(nullp, cs), h.contains(nullp));
+    case F_NULLS:  return DF(h.contains(nullp, cnt, cs), h.contains(nullp, cnt));
     default:       return 9;
     }
 }
@@ -86,10 +88,10 @@ static int do_affix(bool ends, const ST::string &h, int ci, Form f, const Needle
     ST::case_sensitivity_t cs = CS[ci];
     const char *nullp = nullptr;
     switch (f) {
-    case F_CSTR:  return ends ? h.ends_with((const char *)nd.z, cs) : h.starts_with((const char *)nd.z, cs);
-    case F_CSTR8: return ends ? h.ends_with((const char8_t *)nd.z, cs) : h.starts_with((const char8_t *)nd.z, cs);
-    case F_STR:   return ends ? h.ends_with(nd.str, cs) : h.starts_with(nd.str, cs);
-    case F_NULLC: return ends ? h.ends_with(nullp, cs) : h.starts_with(nullp, cs);
+    case F_CSTR:  return ends ? DF(h.ends_with((const char *)nd.z, cs), h.ends_with((const char *)nd.z)) : DF(h.starts_with((const char *)nd.z, cs), h.starts_with((const char *)nd.z));
+    case F_CSTR8: return ends ? DF(h.ends_with((const char8_t *)nd.z, cs), h.ends_with((const char8_t *)nd.z)) : DF(h.starts_with((const char8_t *)nd.z, cs), h.starts_with((const char8_t *)nd.z));
+    case F_STR:   return ends ? DF(h.ends_with(nd.str, cs), h.ends_with(nd.str)) : DF(h.starts_with(nd.str, cs), h.starts_with(nd.str));
+    case F_NULLC: return ends ? DF(h.ends_with(nullp, cs), h.ends_with(nullp)) : DF(h.starts_with(nullp, cs), h.starts_with(nullp));
     default:      return 9;
     }
 }
@@ -100,6 +102,8 @@ static std::vector<std::string> positions(size_t haylen) {
     std::vector<std::string> p{"none"};
     for (size_t i = 0; i < haylen + 3; ++i) p.push_back(std::to_string(i));
     p.push_back("18446744073709551615");
+    // start positions within a needle length of SIZE_MAX and around 2^63 (start + count must not wrap into the text)
+    for (const char *x : {"18446744073709551614", "18446744073709551613", "18446744073709551612", "9223372036854775808", "9223372036854775807", "4294967296"}) p.push_back(x);
     return p;
 }
 
